@@ -304,6 +304,15 @@ NATIVE = {
               lambda p, par, n, a, k, s: classes()['Moore'](par, n, a.get('inc'), a['q'], period=k.get('period', 3), gain=k.get('gain', 16), start=k.get('start', 0))),
     'PadPut': (('a',), (), False, True,
                lambda p, par, n, a, k, s: classes()['PadPut'](par, n, a['pad'], a['a'], k=k.get('k', 3), off=k.get('off', 5))),
+    'Stack_ShiftRegister': (('din', 'push', 'pop'), ('dout',), True, False,
+                            lambda p, par, n, a, k, s: p.Stack_ShiftRegister(par, n, a['din'], a['dout'], a['push'], a['pop'], None, None, k.get('depth', 3))),
+    # adders with an arbitrary-width wire on the carry port (the constructors accept it)
+    'AddWideCI': (('a', 'b', 'ci'), ('r',), False, True,
+                  lambda p, par, n, a, k, s: p.Add(par, n, a['a'], a['b'], a['r'], ci=a.get('ci'))),
+    'AddCarryInWide': (('a', 'b', 'ci'), ('r',), False, True,
+                       lambda p, par, n, a, k, s: p.AddCarryIn(par, n, a['a'], a['b'], a['r'], a['ci'])),
+    'SubBorrowInWide': (('a', 'b', 'ci'), ('r',), False, True,
+                        lambda p, par, n, a, k, s: p.SubBorrowIn(par, n, a['a'], a['b'], a['r'], a['ci'])),
     'DoublePut': (('a',), ('r',), False, True,
                   lambda p, par, n, a, k, s: classes()['DoublePut'](par, n, a['a'], a['r'], mode=k.get('mode', 0))),
     'Waveform': (('w0', 'w1', 'w2', 'w3'), (), True, False,
@@ -452,9 +461,9 @@ def build(plan, block_order=None, wire_order=None, subst=None, extra=None, pause
                 conn = x['conn']
                 k = [0]
 
-                def mk(name, width, conn=conn, k=k):
+                def mk(name, width, conn=conn, k=k, x=x):
                     w = b.W[conn[k[0]]]
-                    if w.getWidth() != width:
+                    if w.getWidth() != width and not (name in x.get('wide_pins', ())):
                         raise ValueError('plan wire %s is %d bits, pin %s of %s needs %d' % (conn[k[0]], w.getWidth(), name, x['entry'], width))
                     k[0] += 1
                     return w
@@ -462,13 +471,16 @@ def build(plan, block_order=None, wire_order=None, subst=None, extra=None, pause
                     raise ValueError('scope %r already has a child named d' % x['scope'])
                 e.build(par, norm_cfg(x['cfg']), mk)
                 child = par.children.pop('d')
-                child.name = bid
-                par.children[bid] = child
+                iname = x.get('name', bid)       # instance name (several blocks in different scopes may share it)
+                if iname in par.children:
+                    raise ValueError('scope %r already has a child named %s' % (x['scope'], iname))
+                child.name = iname
+                par.children[iname] = child
                 b.B[bid] = child
             else:
                 ctor = NATIVE[x['kind']][4]
                 a = {n: (b.W[v] if v is not None else None) for n, v in x['args'].items()}
-                b.B[bid] = ctor(py4hw, par, bid, a, x.get('params', {}), subst)
+                b.B[bid] = ctor(py4hw, par, x.get('name', bid), a, x.get('params', {}), subst)
         # declare the ports of the structural wrappers from the plan (structural ports do not take part in simulation)
         for path, box in b.boxes.items():
             if path == '':
@@ -739,8 +751,11 @@ def comb_pool(prim_only=False, allow_random=False, props=('C07', 'C08'), max_lea
     return out
 
 
+WIDE_CONTROL_PINS = ('ci',)      # catalogue pins declared 1 bit wide whose constructors accept any width
+
+
 def gen_dag(rnd, n_blocks, prim_only=False, n_regs=0, n_boxes=0, allow_random=False, max_leaves=24,
-            reg_narrow=False, tier='quick', scope_p=0.45):
+            reg_narrow=False, tier='quick', scope_p=0.45, wide_ctl=0.0):
     """random acyclic combinational netlist from the catalogue, optionally with Regs in feedback and wrappers"""
     g = _Gen(rnd)
     pool = comb_pool(prim_only, allow_random)
@@ -781,13 +796,23 @@ def gen_dag(rnd, n_blocks, prim_only=False, n_regs=0, n_boxes=0, allow_random=Fa
             continue
         _, e, cfg, sig = best
         conn = [None] * len(sig['pins'])
+        wide = []
         for k in sig['ins']:
-            conn[k] = g.pick(sig['pins'][k][1])
+            pname, pw = sig['pins'][k]
+            if wide_ctl and pname in WIDE_CONTROL_PINS and rnd.random() < wide_ctl and g.bywidth:
+                # a multi-bit wire on a carry / control port (e.g. a counter output used as third addend)
+                conn[k] = g.pick(rnd.choice(sorted(g.bywidth)), p_new=0.0)
+                wide.append(pname)
+            else:
+                conn[k] = g.pick(pw)
         for k in sig['outs']:
             conn[k] = g.wire(sig['pins'][k][1], pool=False)
         for k in sig['outs']:
             g.bywidth.setdefault(sig['pins'][k][1], []).append(conn[k])
-        g.plan['blocks'].append(cat_block(g.bid(), e.name, cfg, conn, scope()))
+        blk = cat_block(g.bid(), e.name, cfg, conn, scope())
+        if wide:
+            blk['wide_pins'] = wide
+        g.plan['blocks'].append(blk)
         made += 1
     for k, (w, q) in enumerate(regs):
         dw = w
@@ -865,6 +890,39 @@ def gen_chain(n, width=1, kind='Not'):
         g.plan['blocks'].append(cat_block('n%d' % k, kind, (width, width), [prev, nxt], ''))
         prev = nxt
     return assign_wire_scopes(g.plan)
+
+
+def gen_layered(rnd, depth, width, w=1):
+    """wide-and-deep acyclic netlist of primitive gates: `depth` layers of `width` gates; every gate reads one wire of the
+    previous layer in its own column (so the longest combinational path has `depth` leaves) and, for 2-input gates, one
+    random wire of the previous layer.  plan order = dataflow order (layer by layer)."""
+    g = _Gen(rnd)
+    prev = [g.input(w) for _ in range(width)]
+    n = 0
+    for d in range(depth):
+        cur = []
+        for c in range(width):
+            o = g.wire(w)
+            kind = rnd.choice(['Not', 'Buf', 'And2', 'Or2', 'Xor2'])
+            if kind in ('Not', 'Buf'):
+                g.plan['blocks'].append(cat_block('g%d' % n, kind, (w, w), [prev[c], o], ''))
+            else:
+                g.plan['blocks'].append(cat_block('g%d' % n, kind, (w,), [prev[c], rnd.choice(prev), o], ''))
+            n += 1
+            cur.append(o)
+        prev = cur
+    return assign_wire_scopes(g.plan)
+
+
+def local_shuffle(items, rnd, window):
+    """order in which every item stays within `window` positions of its place (cheap for swap sorters, still out of order)"""
+    items = list(items)
+    out = []
+    for k in range(0, len(items), window):
+        seg = items[k:k + window]
+        rnd.shuffle(seg)
+        out += seg
+    return out
 
 
 # --------------------------------------------------------------------------- fault injection (combinational cycles)
@@ -975,7 +1033,7 @@ def inject_cycle(plan, rnd, kind):
 
 # --------------------------------------------------------------------------- sequential designs (C05)
 
-SEQ_SHAPES = ('ring', 'shift_taps', 'counter_mem', 'fsm_regs', 'random', 'two_domains', 'moore', 'pad')
+SEQ_SHAPES = ('ring', 'shift_taps', 'counter_mem', 'fsm_regs', 'random', 'two_domains', 'moore', 'pad', 'replicated')
 
 
 def gen_seq(rnd, n_seq, shape=None, fsm=True):
@@ -1165,6 +1223,77 @@ def gen_seq(rnd, n_seq, shape=None, fsm=True):
         for x in plan['wires']:
             if x['id'] == bus:
                 x['bidir'] = True
+        rnd.shuffle(plan['blocks'])
+    elif shape == 'replicated':
+        # the SAME sub-block (same wrapper name, same instance names, same local wire names) instantiated several times
+        # under different parents, 3+ levels deep, all clocked at the same edge, each fed with different data
+        w = rnd.choice([2, 4, 8])
+        k = rnd.randint(2, 4)
+        inner = rnd.sample(['regs', 'DelayLine', 'Stack_ShiftRegister', 'Counter', 'TReg'], rnd.randint(1, 3))
+        if 'regs' not in inner and rnd.random() < 0.7:
+            inner.append('regs')
+        nreg = max(1, min(3, n_seq // k))
+        dl = rnd.randint(2, 3)
+        din = g.input(w)
+        ctl = [g.input(1), g.input(1)]
+        plan['scopes'] = []
+        outs = []
+        for r_ in range(k):
+            top = 'u%d' % r_
+            deep = rnd.random() < 0.6
+            sc = top + '/core' + ('/stage' if deep else '')
+            plan['scopes'] += [dict(path=top, clock=None), dict(path=top + '/core', clock=None)] + ([dict(path=sc, clock=None)] if deep else [])
+
+            def lw(name, width, pre='u%d_' % r_):
+                wid = pre + name
+                plan['wires'].append(dict(id=wid, name=name, w=width, scope=''))
+                return wid
+
+            def blk(b_, name):
+                b_['name'] = name
+                plan['blocks'].append(b_)
+            # per-replica data: the shared input xor a different constant
+            src = lw('src', w)
+            kc = lw('kc', w)
+            blk(cat_block('u%d_kc' % r_, 'Constant', (w, rnd.randrange(1 << w)), [kc], sc), 'kc')
+            blk(cat_block('u%d_mix' % r_, 'Xor2', (w,), [din, kc, src], sc), 'mix')
+            cur = src
+            for kind in inner:
+                if kind == 'regs':
+                    for j in range(nreg):
+                        q = lw('s%d' % j, w)
+                        blk(native_block('u%d_r%d' % (r_, j), 'Reg', dict(d=cur, q=q, enable=None, reset=None), dict(reset_value=rnd.randrange(1 << w)), sc), 'r%d' % j)
+                        cur = q
+                elif kind == 'DelayLine':
+                    q = lw('dlo', w)
+                    blk(native_block('u%d_dl' % r_, 'DelayLine', dict(a=cur, en=None, reset=None, r=q), dict(delay=dl), sc), 'dl')
+                    cur = q
+                elif kind == 'Stack_ShiftRegister':
+                    q = lw('sto', w)
+                    blk(native_block('u%d_st' % r_, 'Stack_ShiftRegister', dict(din=cur, dout=q, push=ctl[0], pop=ctl[1]), dict(depth=3), sc), 'st')
+                    cur = q
+                elif kind == 'Counter':
+                    c = lw('cnt', w)
+                    b0 = lw('cb', 1)
+                    blk(cat_block('u%d_b0' % r_, 'Bit', (w, 0), [cur, b0], sc), 'b0')
+                    blk(native_block('u%d_cnt' % r_, 'Counter', dict(reset=None, inc=b0, q=c), {}, sc), 'cnt')
+                    x = lw('cx', w)
+                    blk(cat_block('u%d_cx' % r_, 'Xor2', (w,), [cur, c, x], sc), 'cx')
+                    cur = x
+                else:
+                    t = lw('tq', 1)
+                    b0 = lw('tb', 1)
+                    blk(cat_block('u%d_tb' % r_, 'Bit', (w, 0), [cur, b0], sc), 'tb')
+                    blk(native_block('u%d_tr' % r_, 'TReg', dict(t=b0, q=t, enable=None, reset=None), {}, sc), 'tr')
+            o = g.wire(w)       # uniquely named wire owned by the root: the replica's output port
+            blk(cat_block('u%d_ob' % r_, 'Buf', (w, w), [cur, o], sc), 'ob')
+            outs.append(o)
+        acc = outs[0]
+        for o in outs[1:]:
+            nx = g.wire(w)
+            cat('Xor2', (w,), [acc, o, nx])
+            acc = nx
+        reg(acc, g.wire(w))
         rnd.shuffle(plan['blocks'])
     else:   # random: registers / memory / sequence with a comb layer between them
         qs = []
